@@ -178,6 +178,39 @@ Inductive sel : Type :=
 
 End Conformers.
 
+(* conformers.py:180-191  what prune_on_rmsd does with its rmsd_tol ARGUMENT (only reached for len >= 2):
+     rmsd_tol = Config.rmsd_threshold if rmsd_tol is None else rmsd_tol
+     if isinstance(rmsd_tol, float): rmsd_tol = Distance(rmsd_tol, "Å")      # Distance SUBCLASSES float
+     logger.info(f'... {rmsd_tol.to("ang")} ...')                            # int / numpy scalar: AttributeError
+     ... calc_heavy_atom_rmsd(...) < rmsd_tol                                # compares the raw number
+   so a Distance in any unit is relabelled as Å (its number is used as Å), and a non-float number raises. *)
+Inductive tol_arg : Type :=
+| TNone                              (* None -> Config.rmsd_threshold (an Å Distance) *)
+| TFloat (x : Qc)                    (* a python float: Å assumed *)
+| TOther (x : Qc)                    (* int, numpy.float32, ...: a number that is not a float instance *)
+| TDistance (x : Qc) (to_ang : Qc).  (* Distance(x, unit) with 1 unit = to_ang Å *)
+Definition rmsd_tol_used (default : Qc) (t : tol_arg) : option Qc :=
+  match t with
+  | TNone => Some default
+  | TFloat x => Some x
+  | TOther _ => None                 (* AttributeError: no attribute 'to' *)
+  | TDistance x _ => Some x          (* unit dropped *)
+  end.
+Definition rmsd_tol_meant (default : Qc) (t : tol_arg) : Qc :=      (* the threshold in Å the caller asked for *)
+  match t with
+  | TNone => default
+  | TFloat x => x
+  | TOther x => x
+  | TDistance x f => (x * f)%Qc
+  end.
+Definition prune_on_rmsd_arg (A : Type) (d : A -> A -> Qc) (default : Qc) (t : tol_arg) (l : list A) : res A :=
+  if length l <? 2 then Ok l                                        (* :173-178, before the tolerance is touched *)
+  else match rmsd_tol_used default t with
+       | Some tol => prune_on_rmsd A d tol l
+       | None => Crash
+       end.
+
+
 (* species.py:1454-1520 find_lowest_energy_conformer, the selection part.  The ORDER of the calls is
    part of the model:
      :1499  self.conformers.optimise(method=lmethod)           -> energies en_l, geometries giving RMSD d
@@ -202,8 +235,9 @@ Definition select (A : Type) (en_l en_h : A -> option Qc) (iso_final : A -> bool
 (* complex.py:93-137  Complex.__init__ ; :172-191 atom_indexes ; mol_graphs.py:300-305 union     *)
 Section ComplexModel.
 Variable At : Type.                                   (* an atom *)
+(* g_order: the node labels of mol.graph in ITERATION (insertion) order; g_edges over node labels *)
 Record mol := mkMol { m_atoms : list At; m_charge : Z; m_mult : Z;
-                      g_nodes : nat; g_edges : list (nat * nat) }.
+                      g_nodes : nat; g_order : list nat; g_edges : list (nat * nat) }.
 
 (* atoms = sum((deepcopy(mol.atoms) for mol in args), None)      complex.py:123-126
    `sum` is a left fold with `+`, and autode/atoms.py:593-605 (after `fix:` facdd37) defines
@@ -240,11 +274,26 @@ Definition atom_indexes (ms : list mol) (k : nat) : option (list nat) :=
   else None.
 
 (* nx.disjoint_union_all: graph k is relabelled to first_label .. first_label + len(G_k) - 1 *)
-Definition shift_edge (off : nat) (e : nat * nat) : nat * nat := (off + fst e, off + snd e).
+(* nx.disjoint_union_all relabels the nodes of every graph by their POSITION in the graph's node
+   iteration order (convert_node_labels_to_integers), not by label value: node x of graph k becomes
+   first_label_k + (position of x in g_order).  After Species.reorder_atoms (mol_graphs.reorder_nodes =
+   nx.relabel_nodes(copy=True)) the iteration order is the OLD order, so position <> label. *)
+Fixpoint pos_of (x : nat) (l : list nat) : nat :=
+  match l with [] => 0 | y :: r => if x =? y then 0 else S (pos_of x r) end.
+Definition relabel_edge (off : nat) (order : list nat) (e : nat * nat) : nat * nat :=
+  (off + pos_of (fst e) order, off + pos_of (snd e) order).
 Fixpoint union_from (off : nat) (ms : list mol) : nat * list (nat * nat) :=
   match ms with
   | [] => (off, [])
   | m :: r => let (n, es) := union_from (off + g_nodes m) r in
+              (n, map (relabel_edge off (g_order m)) (g_edges m) ++ es)
+  end.
+(* the disjoint union ALIGNED with the atoms (what the property asks for): shift by label value *)
+Definition shift_edge (off : nat) (e : nat * nat) : nat * nat := (off + fst e, off + snd e).
+Fixpoint union_shift (off : nat) (ms : list mol) : nat * list (nat * nat) :=
+  match ms with
+  | [] => (off, [])
+  | m :: r => let (n, es) := union_shift (off + g_nodes m) r in
               (n, map (shift_edge off) (g_edges m) ++ es)
   end.
 Definition c_graph (ms : list mol) : nat * list (nat * nat) := union_from 0 ms.
